@@ -209,7 +209,8 @@ def scan(f, pos):
     while 1:
         f.seek(pos)
         data = f.read(8096)
-        if not data:
+        if len(data) < 9:
+            # Not enough left for a period followed by an 8-byte length.
             return 0
 
         s = 0
